@@ -832,6 +832,15 @@ def check_api(case):
                             name, list(r.pattern_descriptors.get('index', [])), case['index_vals']),
                         'api:descriptors:index')
         require(r.n_cond == case['n'], '%s predict_rdm n_cond %r' % (name, r.n_cond), 'api:descriptors')
+        # the prediction is the caller's object: putting it into another order in place must not
+        # reach the model (the next prediction is checked against the same labels again)
+        if r.n_cond >= 2:
+            lib(r.reorder, np.arange(r.n_cond - 1, -1, -1), on_error='reject')
+            if case['src'] == 'rdms':
+                require(_desc_equal(model.rdm_obj.pattern_descriptors.get('lab', []), case['labels']),
+                        '%s: reordering a returned prediction in place changed the labels of the '
+                        'model RDMs to %r' % (name, list(model.rdm_obj.pattern_descriptors.get('lab', []))),
+                        'api:prediction-shares-descriptors')
     # defaults agree
     v0, r0 = _pred_pair(model, None, name + ' default theta', use_default=True)
     require_close(v0, np.asarray(r0.dissimilarities, dtype=float)[0],
